@@ -149,7 +149,7 @@ def check_property(pid, tier, seed):
                            'params': [list(p) for p in H.params], 'pre': H.pre_text()}
             total_splits += len(splits)
             indexed = list(enumerate(splits))
-            csize = max(1, min(int(meta.get('chunk', 40)), math.ceil(len(indexed) / (NCPU * 3))))
+            csize = max(1, min(int(meta.get('chunk', 40)), len(indexed) // (NCPU * 4)))
             for ch in chunk(indexed, csize):
                 jobs.append({'verif_root': ROOT, 'module': module, 'harness': name, 'splits': ch, 'workdir': workdir,
                              'per_path_timeout': H.per_path_timeout or meta.get('per_path_timeout', 30),
@@ -187,6 +187,7 @@ def check_property(pid, tier, seed):
                 st['solver_n'] += r.get('solver_n', 0)
                 st['solver_t'] += r.get('solver_t', 0.0)
                 st['wall_cpu'] += r.get('wall', 0.0)
+                st.setdefault('slowest', []).append((round(r.get('wall', 0.0), 1), r.get('paths', 0), split))
                 st['wit'].update(r.get('wit', {}))
                 st['functions'].update(r.get('functions', []))
                 v = r['verdict']
@@ -205,6 +206,8 @@ def check_property(pid, tier, seed):
                     inconclusive.append({'harness': name, 'split': split, 'why': r.get('messages'), 'paths': r.get('paths')})
                 else:
                     machinery.append(('worker error', {'harness': name, 'split': split, 'msgs': r.get('messages')}))
+        for st in per_h.values():
+            st['slowest'] = sorted(st.get('slowest', []), key=lambda x: -x[0])[:3]
         # 4. replay counterexamples natively before reporting
         os.makedirs(os.path.join(ROOT, 'replays'), exist_ok=True)
         replayed = 0
@@ -288,6 +291,7 @@ def check_property(pid, tier, seed):
         log(f'[{pid}] tier={tier} obligations={obligations} discharged={discharged} paths={tot_paths} '
             f'solver_queries={tot_solver} solver_time={evidence["coverage"]["solver_time_s"]}s wall={wall:.1f}s')
         for n, s in per_h.items():
+            log(f'   {n}: slowest splits (cpu s, paths, split): {s.get("slowest")}')
             log(f'   {n}: splits={s["splits"]} confirmed={s["confirmed"]} refuted={s["refuted"]} unknown={s["unknown"]} paths={s["paths"]} wit={dict(s["wit"])}')
         if violations:
             seen = set()
